@@ -447,12 +447,16 @@ def main(argv):
     ap.add_argument("--list", action="store_true")
     ap.add_argument("--max-replays", type=int, default=3)
     ap.add_argument("--timeout", type=int, default=0, help="override the per-harness time cap (development)")
+    ap.add_argument("--names-file", help="run only the instances named in this file (development)")
     args = ap.parse_args(argv)
     if args.tier not in ("quick", "thorough"):
         print("tier must be quick or thorough")
         return 2
+    global PARTIAL_RUN
+    if args.names_file:
+        names = set(open(args.names_file).read().split())
+        args.only = "^(" + "|".join(re.escape(n) for n in sorted(names)) + ")$"
     if args.only:
-        global PARTIAL_RUN
         PARTIAL_RUN = True
     if args.list:
         for i in select(args.prop, args.tier, args.only):
